@@ -144,7 +144,7 @@ func TestC19(t *testing.T) {
 				continue
 			}
 			gens = append(gens, g{"UnixFSFile", sz, s}, g{"UnixFSDirectory", sz, s}, g{"UnixFSDirectory-dirname", sz, s}, g{"UnixFSDirectory-sharded", sz, s}, g{"UnixFSDirectory-custom", sz, s},
-				g{"GenerateDirectory", sz, s}, g{"GenerateDirectory-sharded", sz, s}, g{"BuildDirectory", sz, s}, g{"WrapContent-exclusive", sz, s}, g{"WrapContent", sz, s})
+				g{"GenerateDirectory", sz, s}, g{"GenerateDirectory-sharded", sz, s}, g{"GenerateDirectoryFrom", sz, s}, g{"BuildDirectory", sz, s}, g{"WrapContent-exclusive", sz, s}, g{"WrapContent", sz, s})
 		}
 	}
 	for _, gg := range gens {
@@ -203,6 +203,15 @@ func TestC19(t *testing.T) {
 					okRun := tt.Run(c.ID, func(t *testing.T) { de = testutil.GenerateDirectory(t, ls, rnd, gg.Size, sharded) })
 					if !okRun {
 						err = fmt.Errorf("GenerateDirectory failed its own requirements")
+					}
+				case "GenerateDirectoryFrom":
+					pathRule = true
+					dir := []string{"sub", "sub/deeper", "/sub/", "./sub", "/a/b/c", "with space/x", "/"}[(gg.Var+gg.Size)%7]
+					okRun := tt.Run(c.ID, func(t *testing.T) { de = testutil.GenerateDirectoryFrom(t, ls, rnd, gg.Size, dir, gg.Var%2 == 1) })
+					if !okRun {
+						err = fmt.Errorf("GenerateDirectoryFrom failed its own requirements")
+					} else if de.Path != dir {
+						c.Violation("C19|GenerateDirectoryFrom|root-path", "GenerateDirectoryFrom(dir=%q) returned an entry with Path %q", dir, de.Path)
 					}
 				case "BuildDirectory":
 					sharded = gg.Var%2 == 1
